@@ -144,24 +144,24 @@ package types
 
 // Stateless validation accepts exactly the well-formed messages (C18).
 //@ func (MsgCancelAuction).ValidateBasic
-//@ ensures [C18] accepts-exactly-well-formed: (result == nil) == wfCancel(msg)
+//@ ensures [C18,C01,C02,C08,C09,C10,C11,C12,C13,C15,C17,C19] accepts-exactly-well-formed: (result == nil) == wfCancel(msg)
 
 //@ func (MsgPlaceBid).ValidateBasic
-//@ ensures [C18] accepts-exactly-well-formed: (result == nil) == wfPlaceBid(msg)
+//@ ensures [C18,C01,C02,C03,C04,C05,C06,C07,C08,C09,C10,C11,C13,C15,C16,C17,C19] accepts-exactly-well-formed: (result == nil) == wfPlaceBid(msg)
 
 //@ func (MsgModifyBid).ValidateBasic
-//@ ensures [C18] accepts-exactly-well-formed: (result == nil) == wfModifyBid(msg)
+//@ ensures [C18,C01,C02,C03,C04,C05,C07,C08,C09,C10,C11,C13,C17,C19] accepts-exactly-well-formed: (result == nil) == wfModifyBid(msg)
 
 //@ func (MsgAddAllowedBidder).ValidateBasic
-//@ ensures [C18] accepts-exactly-well-formed: (result == nil) == wfAddAllowedBidder(msg)
+//@ ensures [C18,C09,C10,C13,C19] accepts-exactly-well-formed: (result == nil) == wfAddAllowedBidder(msg)
 
 //@ func (MsgCreateFixedPriceAuction).ValidateBasic
 //@ requires timesSane(msg.VestingSchedules)
-//@ ensures [C18,C09] accepts-exactly-well-formed: (result == nil) == wfCreateFixed(msg)
+//@ ensures [C18,C09,C01,C02,C07,C08,C10,C11,C12,C13,C15,C16,C17,C19] accepts-exactly-well-formed: (result == nil) == wfCreateFixed(msg)
 
 //@ func (MsgCreateBatchAuction).ValidateBasic
 //@ requires timesSane(msg.VestingSchedules)
-//@ ensures [C18,C09] accepts-exactly-well-formed: (result == nil) == wfCreateBatch(msg)
+//@ ensures [C18,C09,C01,C02,C03,C07,C08,C10,C11,C12,C13,C15,C16,C17,C19] accepts-exactly-well-formed: (result == nil) == wfCreateBatch(msg)
 
 // Match (C03, C04, C05): sweep the price levels from the top down to matchPrice; every bid asks for its quantity at
 // matchPrice, limited by what is left of its bidder's cap; give up (nil) as soon as the total would exceed the offer.
